@@ -83,7 +83,7 @@ def replay_one(w, obs, coin='bitcoin', h0=0):
     return probs, r
 
 
-def traced_run(w, rng, n, cb, s, e, nfiles=3, coin='bitcoin', h0=0):
+def traced_run(w, rng, n, cb, s, e, nfiles=3, coin='bitcoin', h0=0, stall=None):
     blocks = chains.std_chain(n, coin, h0=h0)
     d = datadir.DataDir(w.sub('dd'), coin)
     for i, b in enumerate(blocks):
@@ -94,7 +94,8 @@ def traced_run(w, rng, n, cb, s, e, nfiles=3, coin='bitcoin', h0=0):
     d.write()
     tr = w.sub('trace')
     dump = w.mk('out') if cb in FILECB else None
-    r = run.run_parser(d.path, cb, dump=dump, coin=coin, start=s if s else None, end=e, trace=tr, skip='spend,create,eval,dump_row,bal_row')
+    r = run.run_parser(d.path, cb, dump=dump, coin=coin, start=s if s else None, end=e, trace=tr, skip='spend,create,eval,dump_row,bal_row',
+                       env={'RBP_VERIF_STALL': stall} if stall else None, timeout=240)
     return tr, r
 
 
@@ -135,19 +136,24 @@ def main(ck, tier, w):
     for H in ([209998] if quick else [65535, 209998, 1000000, 2097155]):
         jobs.append((5, 'csvdump', H + 1, H + 3, random.Random(H), H))
 
+    # wall-clock time: runs that take longer than the progress-report interval (10 s), once and twice
+    for cb, stall in (('csvdump', '3:10400'), ('unspentcsvdump', '2:10400,5:10400'), ('simplestats', '4:10400')) if quick else \
+            (('csvdump', '3:10400'), ('unspentcsvdump', '2:10400,5:10400'), ('balances', '1:10400,2:10400,6:10400'), ('simplestats', '4:10400'), ('opreturn', '4:10400')):
+        jobs.append((8, cb, 1, None, random.Random(stall), 0, stall))
+
     def tjob(j):
         n, cb, s, e, r0 = j[:5]
         h0 = j[5] if len(j) > 5 else 0
-        tr, r = traced_run(w, r0, n, cb, s, e, h0=h0)
+        tr, r = traced_run(w, r0, n, cb, s, e, h0=h0, stall=j[6] if len(j) > 6 else None)
         return j, tr, r
-    ran = chains.pmap(tjob, jobs, 8)
+    ran = chains.pmap(tjob, jobs, 12)
     verdicts = tracecheck.validate_many([x[1] for x in ran], batch=3)
     for (j, tr, r), v in zip(ran, verdicts):
         n, cb, s, e = j[:4]
         h0 = j[5] if len(j) > 5 else 0
         ck.traces()
         ck.evals()
-        ck.distinct(('trace', n, cb, s, e, h0))
+        ck.distinct(('trace', n, cb, s, e, h0) + tuple(j[6:7]))
         exp_last = min(e, h0 + n - 1) if e is not None else h0 + n - 1
         probs = []
         if r.rc != 0:
@@ -157,6 +163,10 @@ def main(ck, tier, w):
         delivered = [x['h'] for x in r.events if x['ev'] == 'deliver']
         if delivered != list(range(s, exp_last + 1)):
             probs.append('delivered heights %s..%s (%d), expected %d..%d' % (delivered[:1], delivered[-1:], len(delivered), s, exp_last))
+        if r.rc == 0 and cb in FILECB and r.listing != sorted('%s-%d-%d.csv' % (f, s, exp_last) for f in FILECB[cb]):
+            probs.append('dump folder holds %s, expected names carrying %d and %d' % (r.listing, s, exp_last))
+        if r.rc == 0 and chains.processed_upto(r.stdout) != exp_last:
+            probs.append('"Processed blocks up to height" says %s, expected %s' % (chains.processed_upto(r.stdout), exp_last))
         if probs:
             ck.violation('; '.join(probs), {'scenario': {'blocks': n, 'first_height': h0, 'cb': cb, 'start': s, 'end': e},
                                             'observed': r.brief(), 'trace_verdict': v, 'tags': []})
@@ -170,11 +180,11 @@ def main(ck, tier, w):
         # gap < A: the usable part of the competing branch stays below the active tip, so the active chain is 0..A-1
         recs = [{'id': h, 'h': h, 'prev': h - 1, 'data': True, 'valid': 5, 'failed': False} for h in range(A)]
         nid = 100
-        if kind in ('hdr', 'failed'):
+        if kind in ('hdr', 'failed', 'pruned'):
             prev = fp
             for h in range(fp + 1, A + 3):
                 bad = h == gap
-                recs.append({'id': nid, 'h': h, 'prev': prev, 'data': not (bad and kind == 'hdr'), 'valid': 2 if bad and kind == 'hdr' else 3,
+                recs.append({'id': nid, 'h': h, 'prev': prev, 'data': not (bad and kind in ('hdr', 'pruned')), 'valid': 2 if bad and kind == 'hdr' else 3,
                              'failed': kind == 'failed' and h >= gap})
                 prev = nid
                 nid += 1
@@ -186,7 +196,7 @@ def main(ck, tier, w):
                 nid += 1
         return {'recs': recs, 'tip': A - 1, 'active': list(range(A))}
     fjobs = []
-    for kind in ('hdr', 'failed', 'stale'):
+    for kind in ('hdr', 'failed', 'stale', 'pruned'):
         for fp, gap in ([(1, 2), (2, 4), (0, A - 1)] if quick else [(f, g) for f in range(0, 5) for g in range(f + 1, A)]):
             for variant in (0, 1):
                 fjobs.append((kind, fp, gap, variant))
